@@ -214,6 +214,21 @@ impl<'a, P: ?Sized + PathImpl> PathMutImpl<'a, P> {
 			buffer.extend_from_slice(segment.as_bytes())
 		}
 
+		// AMBIGUITY: Removing dot segments may bring to the front a segment
+		//            that is empty (`a/..//b` would become `/b` and
+		//            `scheme:/..//b` would become `scheme://b`) or that looks
+		//            like a scheme (`a/../b:c` would become `b:c`).
+		// SOLUTION:  We shield it with a `.` segment, as `push` does.
+		let disambiguate = if buffer.starts_with(b"/") {
+			self.is_relative() || !self.follows_authority
+		} else {
+			self.start == 0 && self.is_relative() && parse::looks_like_scheme(&buffer)
+		};
+
+		if disambiguate {
+			buffer.insert_many(0, *b"./");
+		}
+
 		let start = self.first_segment_offset();
 		replace(self.buffer, start..self.end, &buffer);
 		self.end = start + buffer.len();
